@@ -25,6 +25,7 @@ type emuTNC struct {
 	closed   bool
 	maxFrame byte
 	viaSeen  []byte
+	yMode    int // 'Y' replies: 0 well-formed and draining, 1 malformed (two data bytes), 2 count stuck at one
 }
 
 type emuAddr struct{}
@@ -118,10 +119,17 @@ func (e *emuTNC) handle(h, data []byte) {
 			e.badFrame = "Y query with wrong callsigns"
 		}
 		n := e.pending
-		if e.pending > 0 {
+		if e.pending > 0 && e.yMode != 2 {
 			e.pending--
 		}
-		e.send('Y', from, to, []byte{byte(n), 0, 0, 0})
+		if e.yMode == 2 && n == 0 {
+			n = 1
+		}
+		if e.yMode == 1 {
+			e.send('Y', from, to, []byte{byte(n), 0})
+		} else {
+			e.send('Y', from, to, []byte{byte(n), 0, 0, 0})
+		}
 	case 'D':
 		if from != e.mycall || to != e.peer || h[6] != 0xf0 {
 			e.badFrame = "data frame with wrong callsigns or PID"
@@ -240,5 +248,34 @@ func H_c13_session() {
 	case 2:
 		symAssert(bytes.Equal(emu.viaSeen, append([]byte{2}, "LA1B-10\x00\x00\x00LD5SK\x00\x00\x00\x00\x00"...)), "via-list")
 	}
+	symReach("end")
+}
+
+// C13 K9: Close while the TNC answers the outstanding-frames query badly — a
+// malformed reply, or a count that never drains (Flush gives up after its
+// timeout): the disconnect exchange is performed all the same.
+func H_c13_close_bad_y() {
+	emu := &emuTNC{toHost: make(chan []byte, 64), port: 0, mycall: "N0CALL", peer: "N1CALL-1", maxFrame: 2}
+	tnc := newTNC(emu)
+	p, err := tnc.RegisterPort(0, "N0CALL")
+	symAssert(err == nil && p != nil, "register-ok")
+	conn, err := p.DialContext(context.Background(), "N1CALL-1")
+	symAssert(err == nil && conn != nil, "dial-ok")
+	chunk := symBytes(symInt(1, 2))
+	n, err := conn.Write(chunk)
+	symAssert(err == nil && n == len(chunk), "write-accepts-everything")
+	emu.yMode = symInt(1, 2)
+	if !symEngine() && emu.yMode == 2 {
+		emu.yMode = 1 // a stuck count costs the one-minute flush timeout in real time: engine only (virtual clock)
+	}
+	conn.Close()
+	seq := ""
+	for _, k := range emu.frames {
+		if k != "Y" {
+			seq += k
+		}
+	}
+	symAssert(seq == "gXCDd", "agwpe-exchanges-in-order (g X C D d)")
+	symAssert(emu.badFrame == "", "all-frames-well-formed (port, callsigns, pid, reserved bytes)")
 	symReach("end")
 }
